@@ -230,7 +230,17 @@ def build(cfg, comps, reference=None, reuse=None):
         f = VecF(comps, a, b)
         grid = make_grid(cfg["grid"], a, b)
         ref = None if reference is None else np.asarray(reference, float)
-        op = Integration(f=f, grid=grid, dim=d, reference_solution=ref)
+        if cfg.get("late_reference"):
+            # the reference solution is handed over AFTER the operation was constructed, through the library's own setter (the UQ workflow:
+            # UncertaintyQuantification is an Integration with distribution-weighted grids; uniform distributions here)
+            from sparseSpACE.GridOperation import UncertaintyQuantification
+            from sparseSpACE.Grid import GlobalTrapezoidalGridWeighted
+            op = UncertaintyQuantification(f, "Uniform", a, b)
+            grid = GlobalTrapezoidalGridWeighted(a, b, op, boundary=bool(cfg["grid"].get("boundary", True)))
+            op.set_grid(grid)
+            op.set_reference_solution(ref)
+        else:
+            op = Integration(f=f, grid=grid, dim=d, reference_solution=ref)
     norm = cfg.get("norm", "inf")
     norm = np.inf if norm == "inf" else norm
     opts = dict(cfg.get("opts", {}))
